@@ -17,4 +17,6 @@ pub mod c04_swap;
 #[cfg(kani)]
 mod probe;
 #[cfg(kani)]
-mod c06_liquidity;
+pub mod c06_liquidity;
+#[cfg(kani)]
+mod c45_glv;
